@@ -17,6 +17,11 @@ def discriminating_attrs(repo, prims, c):
     """Attributes that only class c (among the primitives) defines: reading them on another type raises."""
     from ..resolve import attr_universe, instance_attr_stores
 
+    # a primitive with a forwarding __getattr__ (Select hands every unknown attribute to its cut) answers the attributes of
+    # whatever it wraps: Select(K) has all attributes of K, so reading an attribute cannot establish that `other` is a K
+    for k in prims:
+        if k is not c and "__getattr__" in k.methods:
+            return set()
     stores, _ = instance_attr_stores(repo)
     mine = attr_universe(repo, c, stores)
     others = set()
@@ -124,9 +129,12 @@ def raising_comparisons(f, g, ft):
             if isinstance(e, ast.UnaryOp) and isinstance(e.op, ast.Not):
                 visit(e.operand, not positive)
             elif isinstance(e, ast.BoolOp):
-                # `a != b or c != d` (T raises): each disjunct alone raises; `a == b and c == d` (F raises): each conjunct
-                for v in e.values:
-                    visit(v, positive)
+                # `a != b or c != d` (T raises): each disjunct alone raises; `a == b and c == d` (F raises): each conjunct.
+                # The dual forms (`a != b and c != d`, also nested: `x or a != b and c != d`) raise only when ALL parts mismatch:
+                # no part of them is a guard on its own
+                if (isinstance(e.op, ast.Or) and positive) or (isinstance(e.op, ast.And) and not positive):
+                    for v in e.values:
+                        visit(v, positive)
             elif isinstance(e, ast.Compare) and len(e.ops) == 1:
                 op = e.ops[0]
                 if (isinstance(op, ast.NotEq) and positive) or (isinstance(op, ast.Eq) and not positive):
